@@ -446,14 +446,9 @@ class Account:
         if not self.seed:
             return ""
         seed, self.init_vectors['seed'] = aes_decrypt(password, self.seed)
-        if not seed:
-            return ""
-        try:
-            Mnemonic().mnemonic_decode(seed)
-        except IndexError:
-            # failed to decode the seed, this either means it decrypted and is invalid
-            # or that we hit an edge case where an incorrect password gave valid padding
-            raise ValueError("Failed to decode seed.")
+        # no word list check here: any text is accepted as a seed on import (other languages,
+        # capitalization), and an incorrect password that happens to give valid padding is caught
+        # by the checksum of the private key, which is decrypted with the same password
         return seed
 
     def encrypt(self, password: str) -> bool:
